@@ -63,7 +63,27 @@ Fixpoint gate_line (toks : list string) (acc : list string) : option string :=
   end.
 
 Definition dispatch (kind : string) (args : list string) : string :=
-  if String.eqb kind "consts" then
+  if String.eqb kind "census" then
+    (* census switches: the runtime-settable switches of the library (package loggers, Debug booleans) the toggler of
+       kind tog flips; extracted from the source on every run *)
+    match args with
+    | [_] => out3 "arp_spoofer.Logger,dhcp4_spoofer.Logger,dns_naming.Debug,dns_naming.Logger,dns_naming.LoggerMDNS,icmp_spoofer.Logger4,icmp_spoofer.Logger6,packet.Logger" "-" "-"
+    | _ => BADARGS
+    end
+  else if String.eqb kind "tog" then
+    (* tog N hexA hexB: 2N online transitions parsed while every switch is flipped concurrently: the model has no log
+       level and no Debug switch, so every call gives the full observation of its frame *)
+    match args with
+    | [_; ha; hb] =>
+        match bytes_of_tok ha, bytes_of_tok hb with
+        | Some a, Some b =>
+            let l := "all: " ++ show_parse_full pp_cfg (of_bytes a) ++ " | " ++ show_parse_full pp_cfg (of_bytes b) in
+            out3 l l "-"
+        | _, _ => BADARGS
+        end
+    | _ => BADARGS
+    end
+  else if String.eqb kind "consts" then
     match args with
     | [n] => if String.eqb n "statslen" then out3 (dec_of_N stats_len) "-" "-" else BADARGS
     | _ => BADARGS
